@@ -153,8 +153,19 @@ func (defaultLocker *DefaultLocker) Lock(ctx context.Context, accounts Accounts)
 
 	select {
 	case <-ctx.Done():
-		defaultLocker.intents.RemoveValue(intent)
-		verifhook.Note(ctx, "lock.cancelled", "intent", intent)
+		defaultLocker.mu.Lock()
+		select {
+		case <-intent.acquired:
+			// The intent has been granted while the caller was giving up:
+			// give the accounts back, otherwise they stay locked forever.
+			intent.unlock(ctx, defaultLocker)
+			verifhook.Note(ctx, "lock.cancelled", "intent", intent)
+			recheck()
+		default:
+			defaultLocker.intents.RemoveValue(intent)
+			verifhook.Note(ctx, "lock.cancelled", "intent", intent)
+		}
+		defaultLocker.mu.Unlock()
 		return nil, errors.Wrapf(ctx.Err(), "locking accounts: %s as read, and %s as write", accounts.Read, accounts.Write)
 	case <-intent.acquired:
 		verifhook.Note(ctx, "lock.observed", "intent", intent)
